@@ -28,6 +28,9 @@ def mirrored(scn):
     else:
         m['init']['pwm'] = -m['init']['pwm']
     m['load'] = mirror_load(m['load'])
+    for op in m.get('schedule', []):
+        if op['op'] == 'set_pwm':
+            op['value'] = -op['value']
     for rule in m.get('rules', []):
         rule['table'] = {k: (None if v is None else -v)
                          for k, v in rule['table'].items()}
